@@ -27,7 +27,7 @@ try:
     if ap.returncode == 0:
         for pid in props:
             t0 = time.time()
-            env = dict(os.environ, VERIF_REPO=wt, VERIF_TIER=tier)
+            env = dict(os.environ, VERIF_REPO=wt, VERIF_TIER=tier, VERIF_EVIDENCE_DIR=os.path.join(V, "build", "seed_evidence"))
             p = subprocess.run(["python3", os.path.join(V, "driver", "check.py"), pid, "--tier", tier], cwd=V, env=env, capture_output=True, text=True)
             lines = [l for l in p.stdout.splitlines() if l.startswith(("VIOLATION", "KNOWN-FINDING"))]
             detail = None
